@@ -234,6 +234,8 @@ func vCanonical(items []vItem) vSpelling {
 // C10: an arbitrary spelling (forms and folds) of a command line behaves like its
 // canonical spelling; by transitivity any two spellings behave alike.
 func H_respell() {
+	vUseNames(vParamInt("names"))
+	vCustomFlags = vParamInt("custom") == 1
 	spec := vParamString("spec")
 	vFlagsOnly = vParamInt("flagsOnly") == 1
 	items := vItems(vParamInt("n"), vParamInt("Lp"))
@@ -260,6 +262,7 @@ func H_respell() {
 
 // C11
 func H_swap() {
+	vCustomFlags = vParamInt("custom") == 1
 	spec := vParamString("spec")
 	vFlagsOnly = vParamInt("flagsOnly") == 1
 	items := vItems(vParamInt("n"), vParamInt("Lp"))
@@ -343,6 +346,15 @@ func H_envmono() {
 			}
 			vAssert(false, "C12: a command line accepted without the environment is rejected with it")
 		}
+		// C15, absolute form: without environment values and with empty defaults, a list
+		// parameter holds values exactly when the command line supplied them, and a flag
+		// can only be true when the command line set it - also for parameters that were
+		// bound on an abandoned branch of the matcher
+		if !cfg.defEqEnv {
+			vAssert(off.userArg[0] == (len(off.x) > 0) && off.userArg[1] == (len(off.y) > 0), "C15: SetByUser of an argument disagrees with what the command line bound to it")
+			vAssert(off.user[oO] == (len(off.o) > 0) && off.user[oE] == (len(off.e) > 0), "C15: SetByUser of an option disagrees with what the command line bound to it")
+			vAssert((!off.a || off.user[oA]) && (!off.b || off.user[oB]), "C15: a flag is set although SetByUser says the command line did not set it")
+		}
 		// C15 seen from here: which parameters were set by the user depends on the command
 		// line only, not on the environment
 		if !rHasEnd(root) && on.ran == 1 {
@@ -383,6 +395,6 @@ func H_envmono() {
 		if refAccept {
 			vCover("ref-accepts-with-env")
 		}
-		vAssert((on.ran == 1) == refAccept, "C12: acceptance with environment values differs from the reference")
+		vAssert((on.ran == 1) == refAccept, "C01/C12: acceptance with environment values differs from the reference (an absent env-backed option is satisfied)")
 	}
 }
